@@ -124,6 +124,9 @@ impl Prop for C03 {
             "trusted base: refs/gdsstream.rs encoder + refs/gdsreal.rs".into(),
         ]
     }
+    fn miri_gen(&self) -> Option<&'static str> {
+        Some("random")
+    }
     fn plan(&self, tier: Tier) -> Vec<GenSpec> {
         vec![
             GenSpec::enumerated("sweep", sweep_count()),
